@@ -62,7 +62,7 @@ def run_tlc(module: str, cfg: str, work: Work, workers=16, dump: Path = None, si
     tag = tag or (Path(str(module)).stem + "-" + Path(cfg).stem)
     meta = work.path("meta-" + tag)
     cfg_path = cfg if os.path.isabs(str(cfg)) else str(SPEC / cfg)
-    cmd = ["java", "-XX:+UseParallelGC", "-Xmx8g", f"-DTLA-Library={SPEC}", "-cp", TLC_CP, "tlc2.TLC", "-workers", str(workers), "-metadir", str(meta),
+    cmd = ["java", "-XX:+UseParallelGC", "-Xmx8g", "-Xss64m", f"-DTLA-Library={SPEC}", "-cp", TLC_CP, "tlc2.TLC", "-workers", str(workers), "-metadir", str(meta),
            "-noGenerateSpecTE", "-config", cfg_path]
     if dump is not None:
         cmd += ["-dump", str(dump)]
@@ -89,7 +89,7 @@ def run_tlc(module: str, cfg: str, work: Work, workers=16, dump: Path = None, si
     m = None
     for m in _SUMMARY.finditer(out):
         pass
-    res = {"cmd": " ".join(cmd[6:]), "out": out, "rc": p.returncode, "wall_s": round(time.time() - t0, 2),
+    res = {"cmd": " ".join(cmd[7:]), "out": out, "rc": p.returncode, "wall_s": round(time.time() - t0, 2),
            "generated": int(m.group(1)) if m else 0, "states": int(m.group(2)) if m else 0}
     inv = re.search(r"Invariant (\S+) is violated", out)
     res["violated_invariant"] = inv.group(1) if inv else None
